@@ -56,7 +56,12 @@ Pool == <<
   [W("/eee") EXCEPT !.mkind = "redirect", !.mval = "al1"],
   \* 20, 21: addable redirect rules (a $redirect rule also blocks; a $redirect-rule does not)
   [W("/jjj") EXCEPT !.mkind = "redirect", !.mval = "r1"],
-  [W("/kkk") EXCEPT !.mkind = "redirect-rule", !.mval = "r1"]
+  [W("/kkk") EXCEPT !.mkind = "redirect-rule", !.mval = "r1"],
+  \* 22-24: a token-less rule with two $domain= values is filed once per domain; added one at a time it must
+  \* reach both buckets, which already exist (23, 24 are part of the initial list)
+  [W("*") EXCEPT !.pos = {"script"}, !.dom = {"y.com", "z.com"}],
+  [W("*") EXCEPT !.pos = {"image"}, !.dom = {"z.com"}],
+  [W("*") EXCEPT !.pos = {"image"}, !.dom = {"y.com"}]
 >>
 \* resources (C06: answers are a function of the LOADED resources): r1 has the alias al1, a later resource
 \* NAMED al1 collides with it - whichever is added first wins; p1 needs a permission and is never served
@@ -70,9 +75,9 @@ ResSeq(st) == [i \in DOMAIN st |-> ResPool[st[i]]]
 StoreNow == EffectiveStore(ResSeq(store))
 UseChoices == {<<>>, <<1, 2>>, <<3, 1>>, <<1, 3, 4>>, <<2>>}
 PoolX == Pool
-InitRules == IF InitSet = "full" THEN <<1, 2, 3, 4, 5, 6, 7, 8, 10, 11>>
+InitRules == IF InitSet = "full" THEN <<1, 2, 3, 4, 5, 6, 7, 8, 10, 11, 23, 24>>
              ELSE IF InitSet = "res" THEN <<15, 16, 17, 18, 19, 13, 3>> ELSE <<3, 5, 7, 13>>
-Addable == IF Mode = "blocker" THEN {9, 12, 14, 20, 21} ELSE {}
+Addable == IF Mode = "blocker" THEN {9, 12, 14, 20, 21, 22} ELSE {}
 
 MkReq(path, alias) ==
   LET pre == Chars("https://") h == Chars("x.com") IN
@@ -82,7 +87,8 @@ Reqs == << MkReq("/aaa/bbb", "script"), MkReq("/ccc/ddd", "script"), MkReq("/eee
            MkReq("/ab/a", "script"), MkReq("/ccc/", "script"), MkReq("/", "document"),
            MkReq("/fff/x/ggg", "script"), MkReq("/hhh/iii", "script"), MkReq("/aaa-bbb", "script"),
            MkReq("/ab-x", "script"), MkReq("/ab_x", "script"), MkReq("/ab.x", "script"), MkReq("/p?q=1&r=2", "xhr"),
-           MkReq("/jjj", "script"), MkReq("/kkk", "script") >>
+           MkReq("/jjj", "script"), MkReq("/kkk", "script"),
+           [MkReq("/zzz", "script") EXCEPT !.src = Chars("z.com")], [MkReq("/zzz", "image") EXCEPT !.src = Chars("s.z.com")] >>
 
 TagSets == SUBSET {"t1", "t2"}
 RuleSeq(rs) == [i \in DOMAIN rs |-> PoolX[rs[i]]]
@@ -236,6 +242,6 @@ Exported ==
 Bounded == Len(hist) <= Depth
 
 ASSUME PrintT(ToJson([k |-> "universe",
-         reqs |-> [q \in DOMAIN Reqs |-> [url |-> Str(Reqs[q].url), alias |-> Reqs[q].alias, src |-> "https://y.com/"]],
+         reqs |-> [q \in DOMAIN Reqs |-> [url |-> Str(Reqs[q].url), alias |-> Reqs[q].alias, src |-> "https://" \o Str(Reqs[q].src) \o "/"]],
          res |-> IF InitSet = "res" THEN ResPool ELSE <<>>]))
 =============================================================================
